@@ -100,6 +100,7 @@ type Exec struct {
 	Assumed   map[string]bool
 	depth     int
 	errsGhost *Term
+	errTok    *Term // token argument of the last NotifyErrorListeners call
 	curBlock  *ssa.BasicBlock
 	curState  *State
 	curReach  *Term
